@@ -171,8 +171,27 @@ def check_message(acc, g, maxavps):
     want = R.encode(lmsg)
     hdr = DiameterHeader(version=f["version"], flags=f["flags"], command_code=f["code"], application_id=f["app_id"],
                          hop_by_hop=f["hbh"], end_to_end=f["e2e"])
-    path = r.choice(["ctor", "append", "extend", "avps=", "mixed"])
-    if path == "ctor":
+    path = r.choice(["ctor", "append", "extend", "avps=", "mixed", "req-header", "ans-header", "req-fields", "ans-fields"])
+    if path in ("req-header", "ans-header", "req-fields", "ans-fields"):
+        # the request/answer classes: R set / clear, P exactly for a non-zero Application-ID (their documented rule), every
+        # other header field as given; without header= a request draws its identifiers and an answer leaves them zero
+        from bromelia.base import DiameterRequest, DiameterAnswer
+        cls = DiameterRequest if path.startswith("req") else DiameterAnswer
+        flags = (0x80 if cls is DiameterRequest else 0) | (0x40 if f["app_id"] else 0)
+        if path.endswith("header"):
+            m = cls(header=hdr, avps=objs if r.random() < 0.5 else None)
+            if not m.avps and objs:
+                m.extend(objs)
+            lmsg = R.LMsg(f["version"], flags, f["code"], f["app_id"], f["hbh"], f["e2e"], [s.lavp for s in specs])
+        else:
+            m = cls(version=f["version"], command_code=f["code"], application_id=f["app_id"], avps=objs)
+            ids = (m.header.get_hop_by_hop(), m.header.get_end_to_end())
+            if cls is DiameterAnswer and ids != (0, 0):
+                acc.violation("message-header", "DiameterAnswer built from fields carries identifiers %r" % (ids,), {"header": f, "path": path})
+            lmsg = R.LMsg(f["version"], flags, f["code"], f["app_id"], ids[0], ids[1], [s.lavp for s in specs])
+        want = R.encode(lmsg)
+        acc.counters["request_answer_class_dumps"] += 1
+    elif path == "ctor":
         m = DiameterMessage(hdr, objs)
     elif path == "append":
         m = DiameterMessage(hdr)
@@ -200,7 +219,7 @@ def check_message(acc, g, maxavps):
     else:
         if int.from_bytes(got[1:4], "big") != len(got) or len(got) % 4:
             acc.violation("message-wire-postcondition", "Message Length %d, size %d" % (int.from_bytes(got[1:4], "big"), len(got)), wit)
-        if bytes(m) != want or len(m) != len(want) or m.copy().dump() != want or DiameterMessage.convert(m).dump() != want:
+        if bytes(m) != want or len(m) != len(want) or m.copy().dump() != want or (type(m) is DiameterMessage and DiameterMessage.convert(m).dump() != want):
             acc.violation("message-view-differs", "bytes()/len()/copy()/convert() disagree with dump()", wit)
         if (m + m) != want + want:
             acc.violation("message-view-differs", "__add__ disagrees with dump()", wit)
@@ -287,7 +306,7 @@ def main(tier, seed):
                            "typed message classes are covered by C09 with the same oracle",
                            "in-domain values the library rejects with an exception are observed, not judged here (C10)"],
                           t0, extra_cov={"classes_covered": len(names) - len(zero), "classes_total": len(names)},
-                          require_counters=("avp_dumps", "header_dumps", "message_dumps", "post_construction_mutations"))
+                          require_counters=("avp_dumps", "header_dumps", "message_dumps", "request_answer_class_dumps", "post_construction_mutations"))
 
 
 def replay(w):
